@@ -41,6 +41,8 @@ def act_text(a):
         return 'I wait %d second%s' % (a[1], '' if a[1] == 1 else 's')
     if k == 'repeat':
         return 'I repeat "%s" %d times' % (act_text(a[1]), a[2])
+    if k == 'reproduce':
+        return 'I reproduce "%s"' % a[1]
     raise ValueError(a)
 
 
@@ -101,13 +103,22 @@ def ref_scenario(sc, steps, want_trace=False):
     monitoring = False
     out = []
 
+    class Frozen:
+        """what a macro step said when it was returned (later changes to the objects it was built
+        from must not change the facts)"""
+        def __init__(self, m):
+            self.entered_states = list(m.entered_states)
+            self.exited_states = list(m.exited_states)
+            self.sent_events = list(m.sent_events)
+            self.event = m.event
+
     def run_all():
         ms = []
         while True:
             m = it.execute_once()
             if m is None:
                 return ms
-            ms.append(m)
+            ms.append(Frozen(m))
 
     def do(kw, a):
         nonlocal trace, monitoring
@@ -119,6 +130,17 @@ def ref_scenario(sc, steps, want_trace=False):
             for _ in range(a[2]):
                 try:
                     do(kw, a[1])
+                    after(kw)
+                except Exception:
+                    raise SubStepFailed()
+        elif a[0] == 'reproduce':
+            # the given / when steps of the named scenario, each as a step of its own under the keyword
+            # of *this* step; an unknown scenario is a failed assertion
+            if a[2] is None:
+                raise SubStepFailed()
+            for sub in a[2]:
+                try:
+                    do(kw, sub)
                     after(kw)
                 except Exception:
                     raise SubStepFailed()
@@ -253,6 +275,58 @@ def doc_patterns():
     return pats
 
 
+def history_template(rnd):
+    """a compound state with a history state that is left, resumed through the history state, advanced and
+    left again — inside one block of when steps; assertions about which of its children were entered"""
+    from sismic.model import (BasicState, CompoundState, DeepHistoryState, ShallowHistoryState, Statechart,
+                              Transition)
+    letters = 'abcdefghijklmnopqrstuvwxyz'
+    used = set()
+
+    def nm():
+        while True:
+            n = ''.join(rnd.choice(letters) for _ in range(rnd.randint(2, 4)))
+            if n not in used:
+                used.add(n)
+                return n
+    sc = Statechart('t', preamble='x = 0\ny = 0\nv0 = False\nv1 = False\nseen = -1\nlast = -1')
+    root, comp, away, hist = nm(), nm(), nm(), nm()
+    kids = [nm() for _ in range(rnd.randint(3, 5))]
+    sc.add_state(CompoundState(root, initial=comp), None)
+    sc.add_state(CompoundState(comp, initial=kids[0]), root)
+    for k in kids:
+        sc.add_state(BasicState(k, on_entry='x += 1'), comp)
+    cls = rnd.choice([ShallowHistoryState, DeepHistoryState])
+    sc.add_state(cls(hist, memory=kids[0]), comp)
+    sc.add_state(BasicState(away), root)
+    for a, b in zip(kids, kids[1:]):
+        sc.add_transition(Transition(a, b, event='e'))
+    sc.add_transition(Transition(comp, away, event='f'))
+    sc.add_transition(Transition(away, hist, event='g'))
+    sc.validate()
+    scenarios = []
+    for _ in range(rnd.randint(2, 3)):
+        steps = []
+        kw = 'given'
+        for _ in range(rnd.randint(0, 2)):
+            steps.append([kw, ['send', 'e', []]])
+        steps.append([kw, ['send', 'f', []]])
+        kw = rnd.choice(['when', 'when', 'given'])
+        steps.append([kw, ['send', 'g', []]])
+        kw = 'when'
+        for _ in range(rnd.randint(0, 2)):
+            steps.append([kw, ['send', 'e', []]])
+        steps.append([kw, ['send', 'f', []]])
+        if rnd.random() < 0.5:
+            steps.append([kw, ['send', 'g', []]])
+        for _ in range(rnd.randint(1, 3)):
+            steps.append(['then', [rnd.choice(['entered', 'not_entered', 'exited', 'not_exited']),
+                                   rnd.choice(kids + [comp, hist])]])
+            # (a failing assertion ends the scenario: one or two of them are enough)
+        scenarios.append(steps)
+    return sc, scenarios
+
+
 class C19(Prop):
     id = 'C19'
     quick_cases = 400
@@ -290,11 +364,17 @@ class C19(Prop):
     def gen_case(self, rnd, tier):
         kn = gen.Knobs(p_eventless=0.0, contracts=0.0, sends=0.45, max_states=rnd.choice([4, 7, 10]),
                        time_preds=0.15, p_final=0.3, send_names=('out', 'o2'))
+        if rnd.random() < 0.35:
+            # history states that are left and come back to within one scenario
+            kn.p_history, kn.history_focus, kn.max_states, kn.p_guard = 0.9, 0.9, rnd.choice([7, 10, 13]), 0.2
         g = gen.ChartGen(rnd, kn)
         sc = g.build()
+        template = None
+        if rnd.random() < 0.1:
+            sc, template = history_template(rnd)
         enc = ChartEnc(sc)
         names = list(sc.states)
-        scenarios = []
+        scenarios = list(template or [])
         for _ in range(rnd.randint(4, 6)):
             steps = []
             kw = 'given'
@@ -318,6 +398,19 @@ class C19(Prop):
                         a = ['wait', rnd.randint(1, 4)]
                     elif r < 0.8:
                         a = ['nothing']
+                    elif r < 0.9 and scenarios:
+                        # replay the given / when steps of an earlier scenario under this step's keyword (the
+                        # replayed step texts carry no table: a send with several parameters is replayed bare)
+                        if rnd.random() < 0.08:
+                            a = ['reproduce', 'no such scenario', None]
+                        else:
+                            k0 = rnd.randrange(len(scenarios))
+                            subs = [(st[1] if not (st[1][0] == 'send' and len(st[1][2]) > 1) else ['send', st[1][1], []])
+                                    for st in scenarios[k0] if st[0] in ('given', 'when')]
+                            if any(x[0] == 'reproduce' for x in subs):
+                                a = ['nothing']
+                            else:
+                                a = ['reproduce', 's%d' % k0, subs]
                     else:
                         a = ['repeat', ['send', rnd.choice(gen.EVENTS), []], rnd.randint(1, 3)]
                     steps.append([kw, a])
